@@ -250,11 +250,11 @@ Proof.
   - (* Diag *) tsplit; [simpl; apply Nat.eqb_eq; assumption|reflexivity|]. apply BTeq_sym. apply dtr_ddiag.
   - (* ConstantDiag *) tsplit; [simpl; rewrite H, H0; reflexivity|reflexivity|]. apply BTeq_sym. apply dtr_dconstdiag.
   - (* Identity *) tsplit; [reflexivity|reflexivity|]. apply BTeq_sym. apply dtr_deye.
-  - (* Zero *) destruct b; [|discriminate]. tsplit; [reflexivity|reflexivity|]. simpl. repeat split.
+  - (* Zero *) tsplit; [reflexivity|reflexivity|]. simpl. repeat split.
   - (* Toeplitz *) tsplit; [simpl; apply Nat.eqb_eq; assumption|reflexivity|]. apply BTeq_sym. apply dtr_dtoeplitz.
   - (* Triangular *) tsplit; [simpl; apply Nat.eqb_eq; symmetry; assumption|reflexivity|]. simpl. apply fr_eq.
-  - (* Chol *) destruct u; [discriminate|]. tsplit; [simpl; apply Nat.eqb_eq; assumption|reflexivity|].
-    apply BTeq_sym. apply dmm_AAt_sym.
+  - (* Chol *) tsplit; [simpl; apply Nat.eqb_eq; assumption|reflexivity|].
+    destruct u; simpl; apply BTeq_sym; [apply dmm_AtA_sym|apply dmm_AAt_sym].
   - (* Root *) tsplit; [assumption|assumption|]. simpl. apply BTeq_sym. apply dmm_AAt_sym.
   - (* LowRankRoot *) tsplit; [assumption|assumption|]. simpl. apply BTeq_sym. apply dmm_AAt_sym.
   - (* Kron *) rewrite pw_fix_pwc in *.
